@@ -1,0 +1,52 @@
+//go:build verif
+
+// Verification hooks for RpcClient (build tag `verif` only): run the expiry sweep at a chosen
+// instant, pre-position the sequence counter, read the bookkeeping. Add-only; not part of the API.
+
+package qnet
+
+import (
+	"sort"
+	"time"
+)
+
+// VerifSweep runs the expiry sweep of the reaper goroutine as if the ticker had fired at `now`.
+func (c *RpcClient) VerifSweep(now time.Time) {
+	c.reapTimeout(now)
+}
+
+// VerifSetCounter pre-positions the 16-bit sequence counter.
+func (c *RpcClient) VerifSetCounter(n uint16) {
+	c.guard.Lock()
+	c.counter = n
+	c.guard.Unlock()
+}
+
+// VerifCounter reads the sequence counter (the sequence number given to the latest call).
+func (c *RpcClient) VerifCounter() uint16 {
+	c.guard.Lock()
+	defer c.guard.Unlock()
+	return c.counter
+}
+
+// VerifDeadline reads the deadline of the outstanding call with this sequence number.
+func (c *RpcClient) VerifDeadline(seq uint16) (time.Time, bool) {
+	c.guard.Lock()
+	defer c.guard.Unlock()
+	if ctx, found := c.pendingCtx[seq]; found {
+		return ctx.deadline, true
+	}
+	return time.Time{}, false
+}
+
+// VerifPending returns the sequence numbers in the pending table (sorted) and the length of the expired list.
+func (c *RpcClient) VerifPending() ([]uint16, int) {
+	c.guard.Lock()
+	defer c.guard.Unlock()
+	var seqs = make([]uint16, 0, len(c.pendingCtx))
+	for seq := range c.pendingCtx {
+		seqs = append(seqs, seq)
+	}
+	sort.Slice(seqs, func(i, j int) bool { return seqs[i] < seqs[j] })
+	return seqs, len(c.expired)
+}
